@@ -1113,6 +1113,20 @@ fn check_field(
             let req = if ct.is_empty() { format!("C07 invert {}", spec.opt.name()) } else { format!("C07 invert {} {ct}", spec.opt.name()) };
             let resp = ctx.model.ask(&req);
             ctx.report.count("model:invert-requests");
+            // the modelled indexing pipeline (recorders -> serializer -> decoder) on the same corpus
+            if exp.total_tokens <= 1200 {
+                let preq = req.replacen("C07 invert", "C07 pipeline", 1);
+                let presp = ctx.model.ask(&preq);
+                if presp == "bad-op" {
+                    ctx.report.count("model:unavailable:pipeline");
+                    ctx.report.violation("model", "C07:model-unavailable", "the Lean driver answers bad-op for pipeline".into(), cj(&[]));
+                } else {
+                    ctx.report.count("model:pipeline-requests");
+                    if presp != resp {
+                        ctx.report.violation("model", "C07:model-pipeline", format!("field {} ({}, {}): modelled pipeline {} differs from invert {}", spec.name, spec.kind.name(), spec.opt.name(), short(&presp), short(&resp)), cj(&[]));
+                    }
+                }
+            }
             let parts: Vec<&str> = resp.split('|').collect();
             if parts.len() != 3 {
                 ctx.report.violation("model", "C07:model-invert", format!("field {}: model answered {}", spec.name, short(&resp)), cj(&[]));
